@@ -404,12 +404,14 @@ def _limit_env(env, flav):
 def run_chunk(agg, cmd_prefix, mode, seed, a, b, opts, env, timeout, source, max_samples, hang_is_violation, wrapper=None, san_logs=None):
     """run cases [a,b) in one process; on a crash attribute it to the last begun case and resume after it"""
     cur = a
-    retried_hang_at = None
+    hang_counts = {}
     parts = cmd_prefix[0].split(os.sep)
     flav = parts[-2] if len(parts) >= 2 else ''
     rerun = dict(kind='harness', harness=parts[-1].rsplit('-', 1)[0], flavour=parts[-2], mode=mode, seed=seed, opts=opts or {}, env={k: v for k, v in (env or {}).items() if k.endswith('SAN_OPTIONS')}, wrapper=wrapper or [])
     while cur < b:
-        cmd = list(wrapper or []) + list(cmd_prefix) + ['--mode', mode, '--seed', str(seed), '--from', str(cur), '--to', str(b), '--samples', str(max_samples)]
+        # a case that was running at two watchdog firings is run a third time alone; only three firings in a row make a hang
+        b_run = cur + 1 if hang_counts.get(cur, 0) >= 2 else b
+        cmd = list(wrapper or []) + list(cmd_prefix) + ['--mode', mode, '--seed', str(seed), '--from', str(cur), '--to', str(b_run), '--samples', str(max_samples)]
         for k, v in (opts or {}).items():
             cmd += ['--opt', '%s=%s' % (k, v)]
         t0 = time.time()
@@ -454,6 +456,11 @@ def run_chunk(agg, cmd_prefix, mode, seed, a, b, opts, env, timeout, source, max
                     for rep in classify_stderr(err):
                         rep['idx'] = last_e; rep['source'] = source; rep['chunk'] = [cur, b]
                         agg.sanitizer_reports.append(rep)
+            if b_run < b:
+                with agg.lock:
+                    agg.inconclusive.append('%s: case %d exceeded the watchdog twice inside a chunk but finished when run alone' % (source, cur))
+                cur = b_run
+                continue
             return
         failing = last_b if (last_b is not None and last_b != last_e) else None
         if timed_out:
@@ -461,15 +468,15 @@ def run_chunk(agg, cmd_prefix, mode, seed, a, b, opts, env, timeout, source, max
                 with agg.lock:
                     agg.inconclusive.append('%s: watchdog fired outside a case (cases %d..%d)' % (source, cur, b))
                 return
-            if retried_hang_at == failing:
+            hang_counts[failing] = hang_counts.get(failing, 0) + 1
+            if hang_counts[failing] >= 3:
                 with agg.lock:
                     if hang_is_violation:
-                        agg.hangs.append(dict(idx=failing, source=source))
+                        agg.hangs.append(dict(idx=failing, source=source, rerun=dict(rerun, idx=failing)))
                     else:
-                        agg.inconclusive.append('%s: case %d exceeded the watchdog twice' % (source, failing))
+                        agg.inconclusive.append('%s: case %d exceeded the watchdog three times (the last time alone)' % (source, failing))
                 cur = failing + 1
                 continue
-            retried_hang_at = failing
             cur = failing
             continue
         if rc == 2 and failing is None:
@@ -492,7 +499,7 @@ def run_chunk(agg, cmd_prefix, mode, seed, a, b, opts, env, timeout, source, max
 
 
 def run_cases(binary, mode, seed, total, opts=None, env=None, nproc=None, chunk=None, timeout=600, source=None,
-              max_samples=3, hang_is_violation=False, wrapper=None, agg=None, start=0):
+              max_samples=3, hang_is_violation=True, wrapper=None, agg=None, start=0):
     agg = agg or Agg()
     if binary.startswith('/skipped/'):
         return agg
@@ -561,7 +568,7 @@ class Verdict:
             for v in agg.violations:
                 self.add(v['key'], v)
             for h in agg.hangs:
-                self.add('hang:' + h['source'], dict(key='hang', detail='case did not finish within the watchdog twice', idx=h['idx'], source=h['source']))
+                self.add('hang:' + h['source'], dict(key='hang', detail='case %s did not finish within the watchdog three times in a row (the third time run alone); the other cases of the same workload take milliseconds' % h['idx'], idx=h['idx'], source=h['source'], rerun=h.get('rerun')))
         for c in agg.crashes:
             self.add('crash:%s:rc=%s' % (c['source'], c['rc']), dict(key='crash', detail='process died with status %s' % c['rc'], idx=c['idx'], source=c['source'], observed=dict(stderr_tail=c['stderr_tail']), rerun=c.get('rerun')))
         for r in agg.sanitizer_reports:
